@@ -254,6 +254,7 @@ def build(spec, task_hashes=None, comp_hashes=None, junk=0):
             },
             workamount_skill_sd_map={},
             facility_skill_map={fname(int(k)): v for k, v in w.get("fsk", {}).items()},
+            quality_skill_mean_map={tname(int(k)): v for k, v in w.get("q", {}).items()},
             absence_time_list=list(w.get("abs", [])),
             main_workplace_id=(wpid(w["mw"]) if w.get("mw") is not None else None),
         )
@@ -378,12 +379,12 @@ def perturb(spec, k):
         for i, it in enumerate(items):
             src = vals[(i + k) % n]
             for kk in keys:
-                if src[kk] is None and kk in ("notask",):
+                if src[kk] is None and kk in ("notask", "q"):
                     it.pop(kk, None)
                 else:
                     it[kk] = src[kk]
 
-    rot(ps["workers"], ["cost", "solo", "skills", "abs", "mw", "fsk"] + (["team"] if k % 2 == 0 else []))
+    rot(ps["workers"], ["cost", "solo", "skills", "abs", "mw", "fsk", "q"] + (["team"] if k % 2 == 0 else []))
     rot(ps["teams"], ["targets", "notask"])
     for tm in ps["teams"]:
         if tm.get("notask") is None:
@@ -476,6 +477,7 @@ def morph(h, spec):
         o.solo_working = bool(w.get("solo", False))
         put_dict(o, "workamount_skill_mean_map", {tname(int(k)): v for k, v in w.get("skills", {}).items()})
         put_dict(o, "facility_skill_map", {fname(int(k)): v for k, v in w.get("fsk", {}).items()})
+        put_dict(o, "quality_skill_mean_map", {tname(int(k)): v for k, v in w.get("q", {}).items()})
         put_list(o, "absence_time_list", w.get("abs", []))
         o.main_workplace_id = wpid(w["mw"]) if w.get("mw") is not None else None
     for i, wp in enumerate(spec["wps"]):
